@@ -172,6 +172,17 @@ type c08Case struct {
 	aborted bool
 	waitRes error
 	hung    bool
+	start   int  // op line of the `case` marker
+	pending bool // an op is being executed whose line has not been emitted yet
+}
+
+// viol reports a violation for the op sequence of this case up to the op being executed.
+func (c *c08Case) viol(key, format string, a ...any) {
+	to := c.r.Line()
+	if c.pending {
+		to++
+	}
+	c.r.ViolationAt(key, c.start, to, format, a...)
 }
 
 var c08Timeout = 10 * time.Second
@@ -240,7 +251,7 @@ func (c *c08Case) quiesce() string {
 			time.Sleep(50 * time.Microsecond)
 		}
 		if time.Now().After(deadline) {
-			c.r.Violation("quiescence-mismatch", "executor shows started=%s q=%d, sequential mirror expects started=%s q=%d", c08Set(got), q, ws, wantQ)
+			c.viol("quiescence-mismatch", "executor shows started=%s q=%d, sequential mirror expects started=%s q=%d", c08Set(got), q, ws, wantQ)
 			c.hung = true
 			// the log so far may already contradict the property itself (a task running
 			// while an earlier conflicting one has not ended)
@@ -322,11 +333,11 @@ func (c *c08Case) doWait() (string, bool) {
 		c.waitRes = err
 		return c08ErrStr(err), true
 	case p := <-pan:
-		c.r.Violation("wait-panics"+suffix, "Wait panicked: %v", p)
+		c.viol("wait-panics"+suffix, "Wait panicked: %v", p)
 		c.hung = true
 		return "panic", false
 	case <-time.After(c08Timeout):
-		c.r.Violation("wait-hang"+suffix, "Wait did not return within %v although every task was released (recorded error: %q)", c08Timeout, c.m.err)
+		c.viol("wait-hang"+suffix, "Wait did not return within %v although every task was released (recorded error: %q)", c08Timeout, c.m.err)
 		c.hung = true
 		return "hang", false
 	}
@@ -610,6 +621,9 @@ func TestVerifC08(t *testing.T) {
 		if len(f) == 0 {
 			continue
 		}
+		if c != nil {
+			c.pending = f[0] != "case" && f[0] != "free"
+		}
 		switch {
 		case f[0] == "case" && len(f) == 2:
 			w, err := strconv.Atoi(f[1])
@@ -625,6 +639,7 @@ func TestVerifC08(t *testing.T) {
 			c = &c08Case{r: r, workers: w, running: map[int]bool{}, m: &c08Mirror{nodes: map[int]int{}}}
 			c.e = New(64, w, 1<<20, nil)
 			r.Emit(l, "ok")
+			c.start = r.Line()
 			r.Count("workers:" + strconv.Itoa(w))
 		case f[0] == "free" && len(f) == 5:
 			c.finish(true)
@@ -661,9 +676,9 @@ func TestVerifC08(t *testing.T) {
 				if c.m.err != "" {
 					key = "run-panics-after-error" // tasks queued after a failure/stop must be registered and skipped
 				}
+				r.Emit(l, "panic")
 				r.Violation(key, "Run(%v) of task %d panicked: %v (recorded error before the call: %q)", ks, id, p, c.m.err)
 				c.hung = true // the panic left task locks held: the executor cannot be used further
-				r.Emit(l, "panic")
 				break
 			}
 			c.m.run(ks)
@@ -773,8 +788,11 @@ func TestVerifC08(t *testing.T) {
 		default:
 			r.Emit(l, "bad-op")
 		}
-		if c != nil && c.hung {
-			broken = true
+		if c != nil {
+			c.pending = false
+			if c.hung {
+				broken = true
+			}
 		}
 	}
 	if !broken {
